@@ -22,6 +22,7 @@ import signal
 from .. import core, probes, vloop
 
 PROP = 'C08'
+TECHNIQUE = ('runtime monitoring with fault enumeration: start/stop wrappers on every block, loop task/timer registries and output-function logs judged by termination-agnostic life-cycle rules for fault site x cause x instant')
 LEVEL = 'fault_enumeration'
 RULE = ("case = (mode: run_forever task / edzed.run() with supporting tasks) x (fault site: one "
         "of the probe blocks x phase in {start before/after super().start(), restore, init_async "
